@@ -290,8 +290,17 @@ func c06Deliver(lab *vLab, res c06E2ECase, caps []vDatagram, payloads [][]byte, 
 			// It announces the epoch the peer is already in and must change nothing.
 			ccsSeq++
 			rec := []byte{20, 254, 253, 0, 0, 0, 0, 0, 0, 0, 0, 0, 1, 1}
+			if idx == -2 {
+				// the same record claiming the CURRENT protected epoch (no suite authenticates a
+				// ChangeCipherSpec) with the highest possible sequence number
+				rec[4] = 1
+				ccsSeq = 1<<48 - 1
+			}
 			for i := 0; i < 6; i++ {
 				rec[10-i] = byte(ccsSeq >> (8 * uint(i)))
+			}
+			if idx == -2 {
+				ccsSeq = 1<<20 + uint64(len(res.Delivered))
 			}
 			lab.Net.deliver("client", "server", rec)
 		} else {
@@ -344,6 +353,9 @@ func TestVerifC06E2E(t *testing.T) {
 			c := code
 			for i := range sc {
 				sc[i] = c%4 - 1 // -1 = a ChangeCipherSpec record between the arrivals
+				if sc[i] == -1 && (code+i)%2 == 1 {
+					sc[i] = -2 // ... claiming the current protected epoch
+				}
 				c /= 4
 			}
 			jobs = append(jobs, job{"psk-gcm", 2, 3, sc})
@@ -386,7 +398,7 @@ func TestVerifC06E2E(t *testing.T) {
 				hi = sc[j]
 			}
 			if rng.chance(7) {
-				sc[j] = -1
+				sc[j] = -1 - rng.intn(2)
 			}
 		}
 		jobs = append(jobs, job{variants[rng.intn(len(variants))], w, n, sc})
